@@ -18,3 +18,8 @@ pub broadcast proof fn axiom_max_i32(x: i32, y: i32)
 pub broadcast proof fn axiom_min_i32(x: i32, y: i32)
     ensures #[trigger] spec_min(x, y) == (if x <= y { x } else { y }) {}
 }
+pub mod std_minmax_axioms_usize { use vstd::prelude::*; use super::std_minmax_hooks::*;
+#[verifier::external_body]
+pub broadcast proof fn axiom_max_usize(x: usize, y: usize)
+    ensures #[trigger] spec_max(x, y) == (if x >= y { x } else { y }) {}
+}
